@@ -29,6 +29,7 @@ analysis procedures.
 import io
 
 import numpy as np
+import xarray as xr
 import yaml
 from yaml.reader import ReaderError
 import inspect
@@ -173,6 +174,24 @@ for loader in YAMLLOADERS:
 # functions as of numpy 1.25, but are saved by name like them
 yaml.add_representer(
     type(np.mean), yaml.representer.Representer.represent_name)
+
+
+# a labelled array (e.g. a per-channel value of a scatterer) is saved as its
+# values, dimensions and coordinates
+def xarray_representer(dumper, data):
+    coords = {dim: data[dim].values.tolist()
+              for dim in data.dims if dim in data.coords}
+    return dumper.represent_mapping('!xarray', {
+        'data': data.values.tolist(), 'dims': list(data.dims),
+        'coords': coords})
+yaml.add_representer(xr.DataArray, xarray_representer)
+
+def xarray_constructor(loader, node):
+    fields = loader.construct_mapping(node, deep=True)
+    return xr.DataArray(fields['data'], dims=fields['dims'],
+                        coords=fields['coords'])
+for loader in YAMLLOADERS:
+    yaml.add_constructor('!xarray', xarray_constructor, Loader=loader)
 
 
 def class_representer(dumper, data):
